@@ -13,15 +13,18 @@ import (
 	"testing"
 
 	"github.com/meshplus/bitxhub-core/boltvm"
+	"github.com/meshplus/bitxhub-core/governance"
 	"github.com/meshplus/bitxhub-core/validator"
 	"github.com/meshplus/bitxhub-kit/log"
 	"github.com/meshplus/bitxhub-kit/types"
 	"github.com/meshplus/bitxhub-model/constant"
 	"github.com/meshplus/bitxhub-model/pb"
+	"github.com/meshplus/bitxhub/internal/repo"
 	"github.com/sirupsen/logrus"
 )
 
 type govcFakeStub struct {
+	admins        []*Role // governance admins answered by the fake role contract (nil: every account is refused)
 	store         map[string][]byte
 	caller        string
 	currentCaller string
@@ -72,6 +75,22 @@ func (s *govcFakeStub) PostEvent(pb.Event_EventType, interface{}) {
 func (s *govcFakeStub) PostInterchainEvent(interface{})     { s.effects++ }
 func (s *govcFakeStub) ValidationEngine() validator.Engine { return nil }
 func (s *govcFakeStub) CrossInvoke(address, method string, args ...*pb.Arg) *boltvm.Response {
+	if s.admins != nil {
+		switch method {
+		case "IsAnyAvailableAdmin", "IsAnyAdmin":
+			for _, a := range s.admins {
+				if len(args) > 0 && a.ID == string(args[0].Value) {
+					return boltvm.Success([]byte("true"))
+				}
+			}
+			return boltvm.Success([]byte("false"))
+		case "GetRolesByType":
+			b, _ := json.Marshal(s.admins)
+			return boltvm.Success(b)
+		case "GetProposalStrategy":
+			return boltvm.Error("", "no strategy")
+		}
+	}
 	switch method {
 	case "IsAnyAvailableAdmin", "IsAnyAdmin":
 		return boltvm.Success([]byte("false"))
@@ -254,6 +273,68 @@ func TestGovcReplayGroup(t *testing.T) {
 		g, _ = group()
 		if r.Ok && g.ChildTxInfo["d"] != pb.TransactionStatus_BEGIN_FAILURE {
 			fmt.Println("REPLAY-CONFIRMED a child joining a failed group starts as", g.ChildTxInfo["d"])
+			return
+		}
+	default:
+		fmt.Println("REPLAY-NOT-CONFIRMED unknown scenario", in.Values["scenario"])
+		return
+	}
+	fmt.Println("REPLAY-NOT-CONFIRMED the scenario behaves as specified")
+}
+
+// TestGovcReplayGovernance: fixed call sequences on the real governance contract over the map-backed stub with a fake
+// role contract of four admins (one super admin).
+func TestGovcReplayGovernance(t *testing.T) {
+	in := govcReadInput(t)
+	const (
+		super = "0xc7F999b83Af6DF9e67d0a37Ee7e900bF38b3D013"
+		a1    = "0x79a1215469FaB6f9c63c1816b45183AD3624bE34"
+		a2    = "0x97c8B516D19edBf575D72a172Af7F418BE498C37"
+		a3    = "0xc0Ff2e0b3189132D815b8eb325bE17285AC898f8"
+		from  = "0x3f9d18f7c3a6e5e4c0b877fe3e688ab08840b997"
+		objId = "appchainX"
+	)
+	stub := newGovcFakeStub()
+	stub.admins = []*Role{
+		{ID: super, RoleType: GovernanceAdmin, Weight: repo.SuperAdminWeight, Status: governance.GovernanceAvailable},
+		{ID: a1, RoleType: GovernanceAdmin, Weight: repo.NormalAdminWeight, Status: governance.GovernanceAvailable},
+		{ID: a2, RoleType: GovernanceAdmin, Weight: repo.NormalAdminWeight, Status: governance.GovernanceAvailable},
+		{ID: a3, RoleType: GovernanceAdmin, Weight: repo.NormalAdminWeight, Status: governance.GovernanceAvailable},
+	}
+	g := &Governance{Stub: stub}
+	status := func(id string) ProposalStatus {
+		p := &Proposal{}
+		stub.GetObject(ProposalKey(id), p)
+		return p.Status
+	}
+	submit := func(event governance.EventType) string {
+		stub.currentCaller = constant.AppchainMgrContractAddr.Address().String()
+		res := g.SubmitProposal(from, string(event), string(AppchainMgr), objId, string(governance.GovernanceAvailable), "reason", nil)
+		return string(res.Result)
+	}
+	vote := func(voter, id, ballot string) bool {
+		stub.caller, stub.currentCaller = voter, voter
+		return g.Vote(id, ballot, "reason").Ok
+	}
+	switch in.Values["scenario"] {
+	case "locked-proposal-withdrawn-then-lock-released":
+		// P1 (update) is locked by the higher-priority P2 (logout); its sponsor withdraws P1 (concluded: reject);
+		// P2 is then rejected by the vote and releases its lock: P1 must stay as it was concluded
+		p1 := submit(governance.EventUpdate)
+		p2 := submit(governance.EventLogout)
+		if status(p1) != PAUSED {
+			fmt.Println("REPLAY-NOT-CONFIRMED the lower-priority proposal was not locked:", status(p1))
+			return
+		}
+		stub.caller, stub.currentCaller = from, from
+		w := g.WithdrawProposal(p1, "changed my mind")
+		concluded := status(p1)
+		for _, voter := range []string{a1, super, a2} {
+			vote(voter, p2, BallotReject)
+		}
+		fmt.Printf("replay: withdraw ok=%v, P1 after the withdrawal: %s; P2 after the votes: %s; P1 after the lock was released: %s\n", w.Ok, concluded, status(p2), status(p1))
+		if (concluded == REJECTED || concluded == APPROVED) && status(p1) != concluded {
+			fmt.Println("REPLAY-CONFIRMED a concluded (withdrawn) proposal changed its status again when the proposal that had locked it was concluded")
 			return
 		}
 	default:
